@@ -6,4 +6,4 @@ From PV Require Import Base.QUtil Gen.GenExtTrapArea Model.ExtTrapArea.
 Extraction Language OCaml.
 Extraction "../ocaml/exttraparea/model.ml"
   Qred Qplus Qmult Qminus Qdiv Qle_bool Qeq_bool
-  eta eta_old find_solution search search_old shortest_conceivable min_duration lin_max cost valid ramp_cnt.
+  eta eta_arb eta_old find_solution search search_old shortest_conceivable min_duration lin_max cost valid ramp_cnt.
